@@ -10,12 +10,12 @@ no-op ...), so deleting commands keeps a trace executable — the basis of repla
 and delta debugging.
 """
 import functools
-from collections import defaultdict
+from collections import Counter, defaultdict
 
 from trie import HexaryTrie
 from trie.exceptions import MissingTrieNode
 
-from .core import HarnessError, Violation, unhx
+from .core import Blob, HarnessError, Violation, unhx
 from .models.mpt import BLANK_ROOT, RefMPT
 from .simdb import InjectedStorageError, SimDB
 
@@ -39,6 +39,17 @@ class ClientAbort(Exception):
 
 class ClientAbortBase(BaseException):
     """Same, as a BaseException (KeyboardInterrupt / GeneratorExit style)."""
+
+
+class ClientAbortFalsy(Exception):
+    """An exception whose instances are falsy (an error collection with no entries):
+    code that asks `if exc:` instead of `if exc is not None:` takes it for 'no error'."""
+
+    def __bool__(self):
+        return False
+
+    def __len__(self):
+        return 0
 
 
 def _batch_proc(trie):
@@ -103,7 +114,7 @@ class HWorld:
         # a pruning handle is given a reference-count table the caller keeps: the trie
         # must keep *that object* up to date (the caller persists it and hands it to the
         # handle it re-opens after a restart)
-        self.caller_rc = defaultdict(int) if self.prune else None
+        self.caller_rc = (Counter() if cfg.get("rc") == "counter" else defaultdict(int)) if self.prune else None
         self.handles = [
             Handle(HexaryTrie(self.db, prune=self.prune, ref_count=self.caller_rc), self.prune, f"h{i}")
             for i in range(n_handles)
@@ -230,9 +241,13 @@ class HWorld:
         if trie is None:
             return "skip"
         k = unhx(cmd["k"])
+        if cmd.get("sub"):
+            k = Blob(k)
         via = cmd.get("via", "m")
         if kind == "set":
             v = unhx(cmd["v"])
+            if cmd.get("sub"):
+                v = Blob(v)
             if "vh" in cmd:
                 keys = sorted(self.db.raw())
                 if keys:
@@ -256,7 +271,9 @@ class HWorld:
         self.post_mutation(h, cmd, trie, status, res)
         if status == "exc":
             return self.mutation_raised(h, cmd, res)
+        k = bytes(k)  # the model holds plain bytes whatever subclass the client passed
         if kind == "set":
+            v = bytes(v)
             was = model.get(k)
             model[k] = v
             self.st.probe("overwrite-same" if was == v else ("overwrite" if was is not None else "insert"))
@@ -286,9 +303,9 @@ class HWorld:
             return "left-block:" + type(e).__name__
         self.disarm()
         if kind == "set":
-            model[k] = v
+            model[bytes(k)] = bytes(v)
         else:
-            model.pop(k, None)
+            model.pop(bytes(k), None)
         self.bump(h, "batch")
         return "ok"
 
@@ -377,7 +394,7 @@ class HWorld:
             return "skip"
         self.changed = True
         g = h.bgen
-        exc = ClientAbortBase("client abort") if cmd.get("exc") == "B" else ClientAbort("client abort")
+        exc = ClientAbortBase("client abort") if cmd.get("exc") == "B" else (ClientAbortFalsy() if cmd.get("exc") == "F" else ClientAbort("client abort"))
         outcome = None
         self.pre_abort(h, cmd)
         if cmd.get("exc") == "G":
@@ -404,7 +421,7 @@ class HWorld:
             raise HarnessError("batch generator yielded after abort")
         self.cut.append([h.bstart, self.idx])
         self._end_batch(h)
-        self.st.fault("batch-abort-base" if cmd.get("exc") == "B" else "batch-abort")
+        self.st.fault("batch-abort-base" if cmd.get("exc") == "B" else ("batch-abort-falsy-exception" if cmd.get("exc") == "F" else "batch-abort"))
         self.after_abort(h, cmd, outcome, exc=exc)
         return outcome
 
@@ -435,6 +452,8 @@ class HWorld:
             # contents; that is C05/C17 business and judged there
             trie, model = h.trie, h.model
         k = unhx(cmd["k"])
+        if cmd.get("sub"):
+            k = Blob(k)
         return self.lookup(trie, model, k, cmd.get("api", "get"))
 
     def lookup(self, trie, model, k, api):
@@ -453,7 +472,7 @@ class HWorld:
         if "map" in self.ora:
             if status == "exc":
                 self.viol("lookup-raised", f"{api}({k.hex()}) on a complete database raised {res!r}")
-            if res != want or type(res) is not type(want):
+            if res != want or isinstance(res, bool) != isinstance(want, bool) or not isinstance(res, (bool, bytes)):
                 self.viol("lookup-mismatch", f"{api}({k.hex()}) returned {res!r}, model holds {want!r}")
             self._lookup_probe(model, k)
         if status == "exc":
